@@ -47,6 +47,8 @@ type c14Case struct {
 	// Orders: every object schema of the tree gets a PropertyOrder (stale names first and in the
 	// middle, the real names in descending order), as a caller who builds schemas in Go may set it.
 	Orders bool `json:"orders,omitempty"`
+	// DupTypes: every type list of the tree gets its first name twice.
+	DupTypes bool `json:"dup_types,omitempty"`
 }
 
 var c14FixedTypes = []reflect.Type{
@@ -89,6 +91,14 @@ func checkC14(c *c14Case, rec *ev.Recorder) (fl *failure, digest string) {
 		mk := func() (*jsonschema.Schema, error) {
 			var s jsonschema.Schema
 			err := json.Unmarshal([]byte(rootText), &s)
+			if err == nil && c.DupTypes {
+				for _, x := range schemaList(&s) {
+					if len(x.Types) >= 1 {
+						// ["a","b"] -> ["a","a","b"]: a repeated name changes nothing about validity
+						x.Types = append([]string{x.Types[0]}, x.Types...)
+					}
+				}
+			}
 			if err == nil && c.Orders {
 				for _, x := range schemaList(&s) {
 					if len(x.Properties) == 0 {
@@ -452,6 +462,7 @@ func TestC14(t *testing.T) {
 			c.Choices = append(c.Choices, l.Log)
 		}
 		c.Orders = rapid.IntRange(0, 3).Draw(t, "orders") == 0
+		c.DupTypes = rapid.IntRange(0, 5).Draw(t, "duptypes") == 0
 		rec.ClassIf(c.Orders, "schemas:with-PropertyOrder-incl-stale-names")
 		c.Ops = []string{"resolve"}
 		mixed := fam == 2
